@@ -15,5 +15,5 @@ for sid in sorted(R):
             base = os.path.basename(v.split("replay=")[1].split()[0])
             kinds.add("structural / frame obligation" if base.startswith("struct_") else
                       "native evaluation of the contract" if base.startswith(("bounded_", "cross-check_")) else "refuted PyVC obligation (replayed natively)")
-        cells.append(f"{pid}: " + ("; ".join(sorted(kinds)) if o["rc"] == 1 else ("no longer property-breaking after 07c0314 (silence is right)" if o.get("superseded") else "**missed**")))
+        cells.append(f"{pid}: " + ("; ".join(sorted(kinds)) if o["rc"] == 1 else ("no longer property-breaking after " + ("3d8a081" if "3d8a081" in str(o.get("superseded")) else "07c0314") + " (silence is right)" if o.get("superseded") else "**missed**")))
     print(f"| {sid} | {', '.join(f.replace('hvsrpy/', '') for f in meta['files_changed'])} | {title[:120]} | {' / '.join(cells)} |")
